@@ -7,10 +7,20 @@ cp /repo/go.sum ./go.sum
 mkdir -p .build/bin evidence replays
 go build -o .build/bin/ovgen ./tools/ovgen || exit 1
 rc=0
+ready=" $(cat ready.txt 2>/dev/null | tr 'A-Z\n' 'a-z ') "
+build_one() {
+  id="$1"
+  ./.build/bin/ovgen -spec "props/$id/overlay.spec" -out ".build/$id" -repo /repo -root "$PWD" || return 1
+  go build -tags verif -overlay ".build/$id/overlay.json" -o ".build/bin/$id" "./props/$id" 2> ".build/$id/build.log" || return 1
+}
 for d in props/*/; do
   id=$(basename "$d")
   [ -f "$d/main.go" ] || continue
-  ./.build/bin/ovgen -spec "$d/overlay.spec" -out ".build/$id" -repo /repo -root "$PWD" || { rc=1; continue; }
-  go build -tags verif -overlay ".build/$id/overlay.json" -o ".build/bin/$id" "./props/$id" || rc=1
+  case "$ready" in *" $id "*) ;; *) continue;; esac   # only claimed checks are built here
+  mkdir -p ".build/$id"
+  if ! build_one "$id"; then
+    echo "setup: building $id failed"; cat ".build/$id/build.log" 2>/dev/null | head -20
+    rc=1
+  fi
 done
 exit $rc
